@@ -79,7 +79,47 @@ def run(rec):
                             ov = abs(psi_out.overlap(psi_exact))
                             gap_ok = ed.E[1] - ed.E[0] > 1e-6 if len(ed.E) > 1 else True
                             rec.check(ov > 1 - 1e-6 or not gap_ok, f'{ename}:state-not-exact', f'|<exact|psi>| = {ov}', inp)
+    mixer_schedule(rec, quick)
     vumps_check(rec, quick)
+
+
+def mixer_schedule(rec, quick):
+    """every (disable_after, number of sweeps) relation: the mixer may be switched off before, in, or after the last sweep;
+    the returned state must be canonical with 1D Schmidt values on every bond in all of them"""
+    from tenpy.networks.mps import MPS
+    from tenpy.algorithms import dmrg
+    from tenpy.models.xxz_chain import XXZChain
+    for bc, L in (('finite', 6), ('infinite', 2)):
+        M = XXZChain({'L': L, 'Jxx': 1., 'Jz': 1.3, 'hz': 0.05, 'bc_MPS': bc})
+        psi0 = MPS.from_product_state(M.lat.mps_sites(), (['up', 'down'] * L)[:L], bc)
+        for ename, Eng in (('TwoSiteDMRGEngine', dmrg.TwoSiteDMRGEngine), ('SingleSiteDMRGEngine', dmrg.SingleSiteDMRGEngine)):
+            for mixer in (['DensityMatrixMixer'] if quick else ['DensityMatrixMixer', 'SubspaceExpansion']):
+                for disable_after in ((2, 4) if quick else (1, 2, 3, 4, 6)):
+                    for n_sweeps in range(max(1, disable_after - 2), disable_after + 3):
+                        opts = {'trunc_params': {'chi_max': 16, 'svd_min': 1e-12}, 'mixer': mixer, 'max_sweeps': n_sweeps, 'min_sweeps': n_sweeps,
+                                'N_sweeps_check': 1, 'max_trunc_err': None, 'update_env': 0,
+                                'mixer_params': {'amplitude': 1e-3, 'decay': 2., 'disable_after': disable_after}}
+                        inp = {'bc': bc, 'engine': ename, 'mixer': mixer, 'disable_after': disable_after, 'sweeps': n_sweeps}
+                        psi = psi0.copy()
+                        rec.begin(f'C13 mixer schedule {inp}')
+                        ok, res = rec.guarded(f'{ename}[mixer-schedule]:exception', lambda: Eng(psi, M, opts).run(), inp)
+                        rec.case(('mixer-schedule', bc, ename, mixer, disable_after, n_sweeps), True)
+                        if not ok:
+                            continue
+                        E, out = res
+                        bad = [i for i in range(out.L + 1 if out.finite else out.L) if np.ndim(out.get_SL(i) if i < out.L else out.get_SR(out.L - 1)) != 1]
+                        rec.check(not bad, f'{ename}:S-not-1D-after-run', f'bonds {bad} hold a 2D matrix instead of Schmidt values', inp)
+                        if bad:
+                            continue
+                        tag = '' if bc == 'finite' else ('[infinite,mixer-active-at-end]' if n_sweeps < disable_after else '[infinite]')
+                        # DMRGEngine documents: after the run the state is brought to canonical form up to norm_tol_final (1e-10) /
+                        # norm_tol (1e-5), "even if DMRG cannot fully converge"
+                        rec.check(np.max(np.abs(out.norm_test())) < 2e-5, f'{ename}:not-canonical{tag}', str(np.max(np.abs(out.norm_test()))), inp)
+                        ok2, ee = rec.guarded(f'{ename}:entanglement_entropy-after-run', lambda: out.entanglement_entropy(), inp)
+                        if bc == 'finite':
+                            # (the energy of an unconverged infinite run is an estimate per sweep, not an expectation value)
+                            EH = M.H_MPO.expectation_value(out)
+                            rec.check(abs(E - EH) < 1e-5, f'{ename}:E-not-expectation-value', f'E={E}, <H>={EH}', inp)
 
 
 def vumps_check(rec, quick):
